@@ -244,3 +244,32 @@ def c04(run):
     run.model_check("MC_WKB", timeout=1800)
     family_enumerated(run, "wkb", "Gen_WKB", "Trace_WKB", gen_cfg=tier_n(run, "Gen_WKB.cfg", "Gen_WKB_full.cfg"))
     family_random(run, "wkb", "Trace_WKB", tier_n(run, 4000, 200000))
+
+FAMILY_MODULE["wkt"] = "Trace_WKT"
+
+
+def _canary_wkt(e):
+    if e["kind"] != "text" or len(e["toks"]) < 4:
+        return None
+    # drop the last closing parenthesis
+    for k in range(len(e["toks"]) - 1, -1, -1):
+        if e["toks"][k] == ")":
+            del e["toks"][k]
+            return e
+    return None
+
+
+CANARY["wkt"] = _canary_wkt
+
+
+@prop("C05")
+def c05(run):
+    run.assumptions += ["number text <-> float64 is trusted to strconv.ParseFloat (driver tokeniser); 'shortest' formatting is not "
+                        "decided, only round-trip exactness and absence of exponent form"]
+    run.extra_cov = {"rule": "random trees of the 7 types x 4 coordinate types with empty members, nested collections, zero values "
+                             "of the 8 Go types, ordinates over all finite float64 classes; plus re-spelt texts enumerated by TLC "
+                             "(keyword case x numerals x bare MultiPoint members x whitespace kinds x tight punctuation x trailing "
+                             "tokens); non-trivial = non-empty"}
+    run.model_check("MC_WKT", timeout=1800)
+    family_enumerated(run, "wkt", "Gen_WKT", "Trace_WKT", gen_cfg=tier_n(run, "Gen_WKT.cfg", "Gen_WKT_full.cfg"))
+    family_random(run, "wkt", "Trace_WKT", tier_n(run, 4000, 200000))
